@@ -45,7 +45,7 @@ def model_value(m, v):
 
 
 class CheckRecord:
-    __slots__ = ('name', 'n', 'discharged', 'by', 'undecided', 'candidates', 'known_hits', 'sample')
+    __slots__ = ('name', 'n', 'discharged', 'by', 'undecided', 'candidates', 'known_hits', 'sample', 'skipped_after_candidate')
 
     def __init__(self, name):
         self.name = name
@@ -56,6 +56,7 @@ class CheckRecord:
         self.candidates = 0
         self.known_hits = 0
         self.sample = None
+        self.skipped_after_candidate = 0
 
 
 class SymCtx:
@@ -69,6 +70,8 @@ class SymCtx:
         self.oblig_timeout_ms = oblig_timeout_ms
         self.inputs: Dict[str, Any] = {}    # name -> z3 const (per path)
         self.input_kinds: Dict[str, str] = {}
+        self.input_ranges: Dict[str, Any] = {}
+        self.probe_hits = 0
         self.checks: Dict[str, CheckRecord] = {}
         self.reached: Dict[str, int] = {}
         self.candidates: List[dict] = []
@@ -85,6 +88,7 @@ class SymCtx:
     def begin_path(self):
         self.inputs = {}
         self.input_kinds = {}
+        self.input_ranges = {}
         self._path_nontrivial = False
 
     def end_path(self):
@@ -96,6 +100,7 @@ class SymCtx:
         v = z3.Real(name)
         self.inputs[name] = v
         self.input_kinds[name] = 'real'
+        self.input_ranges[name] = (lo, hi)
         x = SymFloat(v)
         if lo is not None:
             self.eng.add_axiom(v >= lift(lo))
@@ -229,6 +234,17 @@ class SymCtx:
             rec = self.checks[name] = CheckRecord(name)
         rec.n += 1
         self.reached['check:' + name] = self.reached.get('check:' + name, 0) + 1
+        # fast path: polynomial identity by normalisation to a sum of monomials
+        try:
+            diff = z3.simplify(la - lb)
+            if len(diff.sexpr()) < 40000:
+                diff = z3.simplify(diff, som=True)
+            if term_is_num(diff) and num_of(diff) == 0:
+                rec.discharged += 1
+                rec.by['normal-form'] = rec.by.get('normal-form', 0) + 1
+                return
+        except z3.Z3Exception:
+            pass
         self._discharge(rec, exact, info, fallback=tol, eq_terms=(la, lb))
 
     # the discharge ladder
@@ -263,6 +279,14 @@ class SymCtx:
             rec.by['simplify'] = rec.by.get('simplify', 0) + 1
             return
         self._path_nontrivial = True
+        if rec.candidates > 0 or rec.known_hits > 8:
+            # this check already has a candidate violation in this work unit: do not spend solver time on further instances
+            rec.skipped_after_candidate += 1
+            rec.n -= 1
+            return
+        if rec.undecided >= 3:
+            rec.undecided += 1      # already inconclusive in this work unit: fail fast
+            return
         full = list(eng.axioms) + list(eng.pc)
         lin = eng.linear_part()
         attempts = []
@@ -277,7 +301,28 @@ class SymCtx:
         final_name = goals[-1][0]
         cand_model = None
         cand_goal = None
+        spec = None            # a model of a weaker context that violates dropped literals: only a source of inputs for native replay
         for mult in (1, 8):
+            if mult == 8 and rec.undecided >= 3:
+                break           # fail fast: this check is already inconclusive in this work unit
+            if mult == 8 and spec is not None:
+                # before spending the large budget: the native replay is the arbiter for speculative inputs
+                if self._replay_forked(self._inputs_of(spec[0])):
+                    self._candidates(rec, spec[1], full, spec[0], info)
+                    return
+                spec = None
+            if mult == 8:
+                # the solver could not decide within the small budget: probe a few concrete points natively.  A hit is a
+                # (replayed) violation; a miss decides nothing - the obligation stays with the solver.
+                hit = self._probe_forked(rec.name)
+                if hit is not None:
+                    rec.candidates += 1
+                    self.probe_hits += 1
+                    if len(self.candidates) < self.max_candidates:
+                        self.candidates.append({'harness': self.unit_info['harness'], 'config': self.unit_info['config'],
+                                                'check': rec.name, 'inputs': hit, 'info': info, 'kinds': dict(self.input_kinds),
+                                                'source': 'native probe of an obligation the solver left undecided'})
+                    return
             for gname, gg in goals:
                 if z3.is_true(gg):
                     rec.discharged += 1
@@ -301,6 +346,8 @@ class SymCtx:
                             rec.sample = {'check': rec.name, 'goal': _short(gg), 'context': lname,
                                           'hyps': len(hyps), 'result': 'unsat'}
                         return
+                    if r == 'sat' and lname != 'full' and spec is None and gname != 'cleared' and not self._model_ok(m, full):
+                        spec = (m, gg)
                     if r == 'sat' and (lname == 'full' or self._model_ok(m, full)):
                         if gname == 'cleared':
                             # a model of the cleared form may sit on a vanishing denominator: confirm on the original
@@ -322,6 +369,132 @@ class SymCtx:
                                        'decisions': len(eng.decisions), 'info': info})
             return
         self._candidates(rec, cand_goal, full, cand_model, info)
+
+    def _replay_forked(self, inputs) -> bool:
+        """native replay of one input assignment in a forked child (isolated from the exploration state); True if a check fails"""
+        import os
+        import select
+        r_fd, w_fd = os.pipe()
+        pid = os.fork()
+        if pid == 0:
+            code = b'0'
+            try:
+                os.close(r_fd)
+                from . import core as _core
+                from .runner import REGISTRY
+                _core._ENGINE = None
+                c = ConcreteCtx(inputs_from_json(_jsonable(inputs)))
+                try:
+                    REGISTRY[self.unit_info['harness']].fn(c, **self.unit_info['config'])
+                except PathAbort:
+                    pass
+                code = b'1' if c.failures else b'0'
+            except BaseException:
+                code = b'0'
+            finally:
+                try:
+                    os.write(w_fd, code)
+                finally:
+                    os._exit(0)
+        os.close(w_fd)
+        out = b''
+        try:
+            ready, _, _ = select.select([r_fd], [], [], 120)
+            if ready:
+                out = os.read(r_fd, 1)
+        finally:
+            os.close(r_fd)
+            try:
+                if not out:
+                    os.kill(pid, 9)
+                os.waitpid(pid, 0)
+            except OSError:
+                pass
+        self.spec_replays = getattr(self, 'spec_replays', 0) + 1
+        return out == b'1'
+
+    def _probe_forked(self, check_name, n=32):
+        """try n pseudo-random input assignments natively in a forked child; returns the json inputs of the first that fails
+        `check_name`, else None"""
+        import os
+        import json as _json
+        import random
+        import select
+        r_fd, w_fd = os.pipe()
+        pid = os.fork()
+        if pid == 0:
+            out = b''
+            try:
+                os.close(r_fd)
+                from . import core as _core
+                from .runner import REGISTRY
+                _core._ENGINE = None
+                rnd = random.Random(hash((check_name, len(self.eng.decisions), self.eng.stats.paths)) & 0xffffffff)
+                fn = REGISTRY[self.unit_info['harness']].fn
+                for i in range(n):
+                    inputs = {}
+                    for k, kind in self.input_kinds.items():
+                        if kind == 'real':
+                            lo, hi = self.input_ranges.get(k, (None, None))
+                            lo = -1e3 if lo is None else float(lo)
+                            hi = 1e3 if hi is None else float(hi)
+                            mode = rnd.random()
+                            if mode < 0.15:
+                                v = rnd.choice([lo, hi, 0.0, 1.0, -1.0])
+                            elif mode < 0.6 and lo < hi:
+                                # small magnitudes around the lower end / zero
+                                span = min(hi - lo, 10.0)
+                                base = 0.0 if lo <= 0.0 <= hi else lo
+                                v = base + rnd.uniform(-span, span) if lo <= base - span else base + rnd.uniform(0, span)
+                            else:
+                                v = rnd.uniform(lo, hi)
+                            inputs[k] = min(max(v, lo), hi)
+                        elif kind == 'int':
+                            inputs[k] = 0
+                        else:
+                            inputs[k] = bool(rnd.getrandbits(1))
+                    c = ConcreteCtx(inputs)
+                    try:
+                        fn(c, **self.unit_info['config'])
+                    except PathAbort:
+                        continue
+                    except Exception:
+                        continue
+                    if any(f.name == check_name for f in c.failures):
+                        out = _json.dumps(inputs).encode()
+                        break
+            except BaseException:
+                out = b''
+            finally:
+                try:
+                    os.write(w_fd, out or b'-')
+                finally:
+                    os._exit(0)
+        os.close(w_fd)
+        data = b''
+        try:
+            while True:
+                ready, _, _ = select.select([r_fd], [], [], 180)
+                if not ready:
+                    break
+                chunk = os.read(r_fd, 65536)
+                if not chunk:
+                    break
+                data += chunk
+        finally:
+            os.close(r_fd)
+            try:
+                if not data:
+                    os.kill(pid, 9)
+                os.waitpid(pid, 0)
+            except OSError:
+                pass
+        if not data or data == b'-':
+            return None
+        try:
+            return _json.loads(data.decode())
+        except Exception:
+            return None
 
     def _inputs_of(self, m) -> Dict[str, Any]:
         out = {}
